@@ -446,6 +446,16 @@ _simlib = {}
 exec(compile(_SIMLIB_THREADING, "/simlib/threading.py", "exec"), _simlib)
 
 
+#: concurrent/futures/thread.py as far as the trace function of a real process sees it while a task is handed to the pool
+_SIMLIB_THREAD = """
+def submit(make_future):
+    f = make_future()
+    return f
+"""
+_simlib_thread = {}
+exec(compile(_SIMLIB_THREAD, "/simlib/thread.py", "exec"), _simlib_thread)
+
+
 def thread_exit_hook(rec):
     """What a thread started through threading.Thread does after run() has returned."""
     if isinstance(getattr(rec, "api", None), SimThread):
@@ -633,7 +643,9 @@ class SimExecutor:
             raise _k.HarnessError("SimExecutor.submit outside simulation")
         if self._shutdown:
             raise RuntimeError("cannot schedule new futures after shutdown")
-        f = Future()
+        # (ThreadPoolExecutor.submit is python code of the standard library: the trace function of a real process sees it -
+        # here one stand-in frame, "thread.py", in which the future is made)
+        f = _simlib_thread["submit"](Future)
         self._q.append((f, fn, args, kwargs))
         if self._idle == 0 and len(self._workers) < self._max:
             t = SimThread(target=self._worker, name="%s-%d" % (self._prefix, len(self._workers)), daemon=True)
